@@ -116,19 +116,33 @@ func qsDrawPlan(rt *rapid.T) qsPlan {
 	p.base.side = vs.Pick(c, serverSide, clientSide)
 	p.base.seed = uint64(c.Intn(1 << 30))
 	p.base.writeBuf = vs.Pick(c, int64(0), 64, 1500, 20000)
-	draw := func() int64 {
-		v := qsLimitValues[c.Intn(len(qsLimitValues))]
+	jitter := func(v int64) int64 {
 		if vs.Pct(c, 20) {
 			v += int64(c.Intn(5))
 		}
 		return v
 	}
-	p.tp.bidiLocal = draw()
-	if vs.Pct(c, 88) {
-		p.tp.bidiRemote, p.tp.uni = draw(), draw()
-	} else {
+	draw := func() int64 { return jitter(qsLimitValues[c.Intn(len(qsLimitValues))]) }
+	switch k := c.Intn(8); {
+	case k == 0:
 		// the classic configuration: one value for all three
+		p.tp.bidiLocal = draw()
 		p.tp.bidiRemote, p.tp.uni = p.tp.bidiLocal, p.tp.bidiLocal
+	case k <= 2:
+		p.tp.bidiLocal, p.tp.bidiRemote, p.tp.uni = draw(), draw(), draw()
+	default:
+		// three different base values
+		n := len(qsLimitValues)
+		i0 := c.Intn(n)
+		i1 := (i0 + 1 + c.Intn(n-1)) % n
+		var rest []int
+		for i := 0; i < n; i++ {
+			if i != i0 && i != i1 {
+				rest = append(rest, i)
+			}
+		}
+		i2 := rest[c.Intn(len(rest))]
+		p.tp.bidiLocal, p.tp.bidiRemote, p.tp.uni = jitter(qsLimitValues[i0]), jitter(qsLimitValues[i1]), jitter(qsLimitValues[i2])
 	}
 	switch c.Intn(3) {
 	case 0:
@@ -198,6 +212,7 @@ type qsStream struct {
 	peerOpened bool  // the fake peer has written a frame that opens it (peer-bidi)
 	initial    int64 // initial limit for this kind of stream
 	limit      int64 // max(initial, every MAX_STREAM_DATA the fake peer wrote)
+	lastLimit  int64 // the initial limit or, once one was written, the value of the latest MAX_STREAM_DATA
 	high       int64 // highest offset the conn has sent (RESET_STREAM final size included)
 	written    int64 // bytes Write has accepted
 	flushed    int64 // lower bound of what has been flushed (written at the last Flush / CloseWrite)
@@ -231,6 +246,7 @@ type qsState struct {
 	order   []*qsStream // slot order
 
 	maxData        int64 // max(initial_max_data, every MAX_DATA the fake peer wrote)
+	lastMaxData    int64 // initial_max_data or the value of the latest MAX_DATA written
 	sumHigh        int64
 	connAtLimit    bool
 	acked          qpPnSet
@@ -242,7 +258,7 @@ type qsState struct {
 }
 
 func newQsState(r *qpRun, p qsPlan) *qsState {
-	q := &qsState{r: r, tp: p.tp, streams: map[streamID]*qsStream{}, maxData: p.tp.maxData, acked: qpPnSet{}}
+	q := &qsState{r: r, tp: p.tp, streams: map[streamID]*qsStream{}, maxData: p.tp.maxData, lastMaxData: p.tp.maxData, acked: qpPnSet{}}
 	for n := range r.hsAcked {
 		q.acked[n] = true
 	}
@@ -256,7 +272,7 @@ func newQsState(r *qpRun, p qsPlan) *qsState {
 		case "local-uni":
 			st.initial = p.tp.uni
 		}
-		st.limit = st.initial
+		st.limit, st.lastLimit = st.initial, st.initial
 		q.streams[sl.id] = st
 		q.order = append(q.order, st)
 	}
@@ -343,6 +359,9 @@ func (q *qsState) judgeOffset(st *qsStream, end int64, frame, suffix string) {
 			frame, end, st.limit, st.kind, st.initial, q.tp))
 	}
 	if end > st.high {
+		if end > st.lastLimit && end <= st.limit {
+			vs.G.Inc("probe.send_beyond_stale_lower_max_stream_data")
+		}
 		q.newData += end - st.high
 		q.sumHigh += end - st.high
 		st.high = end
@@ -533,6 +552,7 @@ func (q *qsState) sendMaxStreamData(st *qsStream, v int64, how string) {
 		st.limit = v
 		st.atLimit = false
 	}
+	st.lastLimit = v
 	f := debugFrameMaxStreamData{id: st.id, max: v}
 	r.peerSend(f)
 	r.flushLog(fmt.Sprintf("peer: %v %s (limit was %d, now %d; conn has sent %d, application has written %d)", f, how, was, st.limit, st.high, st.written))
@@ -622,14 +642,26 @@ func (q *qsState) advance(d time.Duration) {
 }
 
 // pending returns the streams on which the conn certainly has flushed data to
-// send and room for it under both limits.
-func (q *qsState) pending() []*qsStream {
-	if q.maxData <= q.sumHigh {
+// send and room for it under both limits. strict: the limits are the maxima the
+// fake peer has written (RFC 9000 4.1: lower values are ignored). !strict: a limit
+// only counts as far as the LATEST frame for it confirms it, so that an endpoint
+// that honours a stale lower MAX_STREAM_DATA / MAX_DATA - over-conservative, but it
+// never sends beyond the peer's limit, which is all C20 states - is not accused.
+func (q *qsState) pending(strict bool) []*qsStream {
+	connLimit := q.maxData
+	if !strict {
+		connLimit = min(connLimit, q.lastMaxData)
+	}
+	if connLimit <= q.sumHigh {
 		return nil
 	}
 	var out []*qsStream
 	for _, st := range q.order {
-		if st.sendable() && min(st.flushed, st.limit) > st.high {
+		limit := st.limit
+		if !strict {
+			limit = min(limit, st.lastLimit)
+		}
+		if st.sendable() && min(st.flushed, limit) > st.high {
 			out = append(out, st)
 		}
 	}
@@ -657,13 +689,13 @@ func (q *qsState) settle() {
 	idle, need := 0, int((2*time.Second+q.advanced)/qsSlice)
 	checked := false
 	for iter := 0; !r.over(); iter++ {
-		pend := q.pending()
+		pend := q.pending(true)
 		if len(pend) == 0 {
 			break
 		}
 		if !checked {
 			checked = true
-			vs.G.Inc("probe.send_liveness_checked")
+			vs.G.Inc("probe.send_liveness_waited")
 		}
 		if iter >= 4000 {
 			vs.G.Inc("gen.send_liveness_inconclusive")
@@ -684,12 +716,28 @@ func (q *qsState) settle() {
 		r.outLog = nil
 		idle++
 		if idle >= need && len(q.unacked()) == 0 {
-			st := pend[0]
 			r.tr.Ev("settle: no new stream data for %v", time.Duration(idle)*qsSlice)
+			sound := q.pending(false)
+			if len(sound) == 0 {
+				// stuck only with respect to limits that a later, lower frame "took back"
+				vs.G.Inc("foreign_violation.rfc9000_4_1.stalled_after_stale_lower_limit")
+				return
+			}
+			st := sound[0]
 			r.setViol(vs.Violf("C20", "blocked_with_credit", "send:blocked_with_credit:"+st.kind,
-				"stream %d (%s): the application has flushed %d bytes, the conn has sent up to %d, the peer's stream limit is %d (initial %d), sum over streams %d of MAX_DATA %d; every packet is acknowledged and nothing new was sent for %v",
-				st.id, st.kind, st.flushed, st.high, st.limit, st.initial, q.sumHigh, q.maxData, time.Duration(idle)*qsSlice))
+				"stream %d (%s): the application has flushed %d bytes, the conn has sent up to %d, the peer's stream limit is %d (initial %d, latest MAX_STREAM_DATA value %d), sum over streams %d of MAX_DATA %d (latest value %d); every packet is acknowledged and nothing new was sent for %v",
+				st.id, st.kind, st.flushed, st.high, st.limit, st.initial, st.lastLimit, q.sumHigh, q.maxData, q.lastMaxData, time.Duration(idle)*qsSlice))
 			return
+		}
+	}
+	if r.over() {
+		return
+	}
+	for _, st := range q.order {
+		if st.sendable() && st.flushed > st.high {
+			// flushed data held back: by now exactly because a limit is exhausted
+			vs.G.Inc("probe.send_settled_at_a_limit")
+			break
 		}
 	}
 	q.checkClosed("settling")
@@ -819,6 +867,7 @@ func (q *qsState) step(op qsOp) {
 			q.maxData = v
 			q.connAtLimit = false
 		}
+		q.lastMaxData = v
 		f := debugFrameMaxData{max: v}
 		r.peerSend(f)
 		r.flushLog(fmt.Sprintf("peer: %v [%s] (limit was %d, now %d; sum of highest offsets %d)", f, qsLName[op.mode], was, q.maxData, q.sumHigh))
@@ -889,11 +938,11 @@ func TestVerif_C20_send(t *testing.T) {
 			r.registerProbes("probe.send_params_pairwise_distinct", "probe.send_params_bidi_remote_above_bidi_local",
 				"probe.send_peer_bidi_written_beyond_bidi_local", "probe.send_peer_bidi_held_at_bidi_local_below_bidi_remote",
 				"probe.send_stream_limit_reached.peer-bidi", "probe.send_stream_limit_reached.local-bidi", "probe.send_stream_limit_reached.local-uni",
-				"probe.send_conn_limit_reached", "fault.send_stale_max_stream_data", "fault.send_stale_max_data",
+				"probe.send_conn_limit_reached", "fault.send_stale_max_stream_data", "fault.send_stale_max_data", "probe.send_beyond_stale_lower_max_stream_data",
 				"probe.send_max_stream_data_raised", "probe.send_max_data_raised", "probe.send_retransmission",
 				"fault.send_acks_withheld_over_time", "probe.send_timer_driven_packets_unacked", "fault.send_partial_ack",
 				"fault.send_stop_sending", "probe.send_reset_after_stop_sending", "probe.send_app_reset",
-				"probe.send_write_stopped_by_full_buffer", "probe.send_liveness_checked",
+				"probe.send_write_stopped_by_full_buffer", "probe.send_liveness_waited", "probe.send_settled_at_a_limit",
 				"probe.send_stream_frames_judged")
 			r.runSendOps(p)
 		})
